@@ -140,7 +140,7 @@ def okValue (name : String) : VSpec → AVal → Bool
   | .interval, .int n => decide (0 ≤ n) && decide (n < 4294967296) && name != "Cryptographic Usage Mask"
   | .bool, .bool _ => true
   | .date, .date n => okDate n
-  | .enum ms, .enum n => ms.contains n
+  | .enum ms, .enum n => ms.contains n && decide (n < 4294967296)
   | .name, .name s t => okText s && E.nameType.contains t
   | .appInfo, .appInfo ns d => okText ns && okText d
   | .cryptoParams, .other => true
